@@ -24,8 +24,11 @@ class DeflateZipModel(JWEZipModel):
             decompressor = zlib.decompressobj()
         else:
             decompressor = zlib.decompressobj(-zlib.MAX_WBITS)
-        value = decompressor.decompress(s, MAX_SIZE)
-        if decompressor.unconsumed_tail:
+        # ask for one octet more than the limit: zlib can consume all of its
+        # input and still hold back output, so an empty unconsumed_tail does
+        # not prove that the whole stream was delivered
+        value = decompressor.decompress(s, MAX_SIZE + 1)
+        if len(value) > MAX_SIZE or decompressor.unconsumed_tail:
             raise ExceededSizeError(f"Decompressed string exceeds {MAX_SIZE} bytes")
         return value
 
